@@ -124,7 +124,7 @@ func (e *rangeEngine) refineByTable(caller, callee *ssa.Function, args []aval) [
 		e.c.starTableOK = map[*ssa.Function]bool{}
 		r16_5(e.c, newReport("C16"))
 	}
-	if e.c.starTableOK[caller] {
+	if starTableCovers(e.c, caller, 0) {
 		if m := meetVal(args[0], rangeVal(0, 8)); !m.bot {
 			return []aval{m.withAx(args[0].ax | axBit("TABLE-R16.5"))}
 		}
@@ -161,6 +161,24 @@ func (e *rangeEngine) refineFieldByTable(key string, fn *ssa.Function, v aval) a
 		}
 	}
 	return v
+}
+
+// starTableCovers: fn is a star accessor R16.5 followed over its whole input domain, or an unexported helper every
+// call of which sits in one (the helper is followed as part of each of them).
+func starTableCovers(c *Ctx, fn *ssa.Function, depth int) bool {
+	if c.starTableOK[fn] {
+		return true
+	}
+	if depth > 2 || !isLocalHelper(fn) {
+		return false
+	}
+	sites := c.callSitesOf(fn)
+	for _, site := range sites {
+		if !starTableCovers(c, site.Parent(), depth+1) {
+			return false
+		}
+	}
+	return len(sites) > 0
 }
 
 // siteOverrideFor: the axiom stated for calls of callee inside fn — or, when fn is an unexported helper (or function
